@@ -152,7 +152,13 @@ pub fn intern(s: &str) -> &'static str {
     leaked
 }
 
-fn verdict_from(out: CaseOut, mut labels: Vec<String>) -> Verdict {
+fn verdict_from(mut out: CaseOut, mut labels: Vec<String>) -> Verdict {
+    // development aid: histogram of all failure signatures without stopping
+    if std::env::var("VC_LOAD_SURVEY").is_ok() {
+        for (s, _) in out.fails.drain(..) {
+            labels.push(format!("survey:{s}"));
+        }
+    }
     // report an unlisted violation in preference to a listed one, so that a
     // known finding in the same case cannot mask a new one
     let first = out.fails.iter().find(|(s, _)| !is_known(s)).or(out.fails.first());
